@@ -74,6 +74,9 @@ type SchedCfg struct {
 	YieldProb float64 `json:"yield_prob"`
 	// StallMax: maximal virtual stall at a parked yield (0 = pure reordering).
 	StallMax Dur `json:"stall_max"`
+	// Free: free-run mode (C20): no central scheduling, store operations applied by the
+	// calling goroutine, observers off; used under the race detector.
+	Free bool `json:"free,omitempty"`
 }
 
 // Action kinds.
@@ -93,6 +96,8 @@ const (
 	AExpire      = "expire_now"
 	ACancelStart = "cancel_start_ctx"
 	AStatus      = "status"
+	AReadAPI     = "read_api"     // IsLeader, LeaderID, Token, Status
+	ARegister    = "register_cbs" // OnPromote/OnDemote re-registration
 )
 
 type Action struct {
